@@ -65,6 +65,7 @@ struct primesieve_verif_probe
   static const primesieve::Vector<uint8_t>& sieve(const primesieve::PrimeGenerator& pg) { return pg.sieve_; }
   static uint64_t pendingPrime(const primesieve::PrimeGenerator& pg) { return pg.prime_; }
   static uint64_t nextSievingPrime(primesieve::PrimeGenerator& pg) { return pg.sievingPrimes_.next(); }
+  static const primesieve::Vector<bool>& tinyTable(const primesieve::PrimeGenerator& pg) { return pg.sievingPrimes_.tinySieve_; }
   static uint64_t maxSmall(const primesieve::PrimeGenerator& pg) { return pg.maxEratSmall_; }
   static uint64_t maxMedium(const primesieve::PrimeGenerator& pg) { return pg.maxEratMedium_; }
   static void setSieveIdxDone(primesieve::PrimeGenerator& pg) { pg.sieveIdx_ = pg.sieve_.size(); }
@@ -297,6 +298,12 @@ int streamSegment(std::istream& in)
             n++; sum += v; last = v; prev = v;
           }
         }
+        // the table of SievingPrimes::tinySieve(): size and sum of the indices still flagged (model: Feed.tinySieve)
+        auto& tt = primesieve_verif_probe::tinyTable(pg);
+        uint64_t tsum = 0;
+        for (std::size_t k = 0; k < tt.size(); k++)
+          if (tt[k]) tsum += k;
+        std::cout << "tiny=" << tt.size() << ":" << tsum << " ";
         std::cout << "pending=" << pending << " n=" << n << " sum=" << sum << " last=" << last << " order=" << order
                   << (strcmp(order, "ok") ? " ORACLE-MISMATCH" : "") << "\n";
       }
